@@ -280,7 +280,8 @@ class Cache:
         if isinstance(node, verbs.Summarize):
             if self.group_by and self.group_by != set(self.partition_by):
                 return "nested summarize"
-            if self.is_summarized and not self.group_by:
+            if self.is_summarized:
+                # also when the table was grouped by the same columns again
                 return "nested summarize"
             if any(
                 (col.ftype(agg_is_window=False) in (Ftype.WINDOW, Ftype.AGGREGATE))
